@@ -219,10 +219,13 @@ func runCase(c Case, choose func(int, []string) int) result {
 			firstWrite = i
 		}
 	}
-	failedGet, failedCacheWrite := false, false
+	failedGet, failedCacheWrite, failedPersRead := false, false, false
 	for _, s := range log {
-		if s.Failed && (strings.HasSuffix(s.Op, ".Get") || strings.HasSuffix(s.Op, ".Exists")) {
-			failedGet = true
+		if s.Failed && !strings.HasPrefix(s.Op, "pers.") && (strings.HasSuffix(s.Op, ".Get") || strings.HasSuffix(s.Op, ".Exists")) {
+			failedGet = true // a CACHE-tier read error (hybrid treats it as a miss: listed finding)
+		}
+		if s.Failed && strings.HasPrefix(s.Op, "pers.") && (strings.HasSuffix(s.Op, ".Get") || strings.HasSuffix(s.Op, ".Exists")) {
+			failedPersRead = true // a persistent-tier read error must abort the operation
 		}
 		if s.Failed && !strings.HasPrefix(s.Op, "pers.") && (strings.HasSuffix(s.Op, ".Set") || strings.HasSuffix(s.Op, ".Delete")) {
 			failedCacheWrite = true
@@ -240,6 +243,8 @@ func runCase(c Case, choose func(int, []string) int) result {
 		shape = "cache-write-failure-swallowed"
 	case wbAfter:
 		shape = "async-writeback"
+	case failedPersRead && isList && !wbAfter:
+		shape = "persistent-read-error-ignored"
 	case failedGet && isList:
 		shape = "tier-read-error-as-miss"
 	case r.interleaved && isList:
